@@ -373,6 +373,7 @@ def run(ctx):
         class Deep:
             quick, seed, tier, work, replay, prop = False, ctx.seed, ctx.tier, ctx.work, ctx.replay, ctx.prop
         stacks, files, aseed = gen(Deep)
+        deepened = True
     else:
         stacks, files, aseed = gen(ctx)
     corpus = load_corpus()
@@ -386,6 +387,8 @@ def run(ctx):
             corr.add_obl(name, o["cases"], o["disagreements"], o["note"])
     corr.notes += tie.scratch.notes
     corr.info.update(tie.scratch.info)
+    if locals().get("deepened"):
+        corr.info["deepened"] = True
     return corr
 
 
